@@ -377,6 +377,49 @@ def check(an, rep, tier):
     if not init_found and fname and sname:
         # the mask may be built masked in one go: mask creation not a store
         init_found = False
+    # the rows masked at the start are exactly the rows the inner maxvol
+    # chose: the index of the initial mask store is the first result of that
+    # call, not the (padded) vector of all rows to be returned -- its
+    # placeholder entries would mask row 0 as well
+    first_res = None
+    for st in lin_:
+        if isinstance(st, ast.Assign) and isinstance(st.value, ast.Call) and \
+                (prog.dotted(st.value.func) or '').split('.')[-1] == \
+                'maxvol' and isinstance(st.targets[0], ast.Tuple) and \
+                st.targets[0].elts and \
+                isinstance(st.targets[0].elts[0], ast.Name):
+            first_res = st.targets[0].elts[0].id
+    for st in lin_:
+        if isinstance(st, ast.Assign) and \
+                isinstance(st.targets[0], ast.Subscript) and \
+                isinstance(st.targets[0].value, ast.Name) and \
+                st.targets[0].value.id == sname and \
+                isinstance(st.value, ast.Constant) and \
+                st.value.value == 0 and first_res and \
+                isinstance(st.targets[0].slice, ast.Name):
+            ix = st.targets[0].slice.id
+            derived = any(
+                isinstance(d_, ast.Assign) and
+                isinstance(d_.targets[0], ast.Name) and
+                d_.targets[0].id == ix and
+                any(isinstance(x_, ast.Name) and x_.id == first_res
+                    for x_ in ast.walk(d_.value)) and
+                any(isinstance(x_, ast.Call) and
+                    (prog.dotted(x_.func) or '').split('.')[-1] in
+                    ('hstack', 'concatenate', 'zeros', 'append', 'pad', 'r_')
+                    for x_ in ast.walk(d_.value))
+                for d_ in lin_)
+            if ix == first_res:
+                rep.ok('P-pair', 'maxvol.maxvol_rect', 'the initial mask '
+                       'covers the rows chosen by maxvol (%s)' % ix)
+            elif derived:
+                rep.violation(
+                    'P-pair', 'maxvol.maxvol_rect', paths.src(mod, st),
+                    'the initial mask is indexed with %s, the padded vector '
+                    'built from the chosen rows %s: its placeholder entries '
+                    'mask a row that was never chosen (row 0), which can '
+                    'then neither be added nor be seen by the stop test'
+                    % (ix, first_res), line=st.lineno, file=mod.path)
     rep.add('P-pair', 'maxvol.maxvol_rect', 'S[I0] = 0 before the first '
             'F = S * ...', 'ok' if init else (
                 'violation' if (init_found or (fname and sname)) else
